@@ -285,7 +285,6 @@ BASES = [['php', 3, 2], ['op', 3], ['or', 2, 1], ['false'], ['tseitin', 'first',
 
 
 def _chain(bi, t1, t2, two):
-    from cnfgen.transformations.substitutions import add_description  # noqa
     base = BASES[bi]
     chain = [TRANSF[t1]] + ([TRANSF[t2]] if two else [])
     argv = ['-q'] + base
